@@ -69,6 +69,8 @@ func fileSets() map[string][]fileSpec {
 		"license-after-64k":  {{"NOTES", strings.Repeat("some unrelated line of notes that fills the file\n", 1330) + mit + "\n" + strings.Repeat("more unrelated lines behind the license text\n", 1600)}},
 		"latin1":          {{"LICENSE", "Copyright \xa9 2020 Foo GmbH, M\xfcnchen\n\n" + mit + "\nGr\xfc\xdfe\n"}},
 		"unlicensed":      {{"README", "just words, nothing else\nsecond line\n"}},
+		// byte-identical files in several places (vendored copies), whose first match is a header
+		"duplicates": {{"a/NOTICE", apacheHdr + "\n\n" + mit}, {"b/vendor/x/NOTICE", apacheHdr + "\n\n" + mit}, {"c/NOTICE", apacheHdr + "\n\n" + mit}, {"d/main.go", "// " + strings.ReplaceAll(strings.TrimRight(apacheHdr, "\n"), "\n", "\n// ") + "\npackage main\n"}, {"e/main.go", "// " + strings.ReplaceAll(strings.TrimRight(apacheHdr, "\n"), "\n", "\n// ") + "\npackage main\n"}},
 		// symbolic links to files (a vendored copy pointing at the top-level license): a file like any other
 		"symlinks": {{"LICENSE", mit}, {"NOTES", "plain\n"}, {"pkg/a/LICENSE", "\x00LINK:../../LICENSE"}, {"pkg/b/COPYING", "\x00LINK:../../LICENSE"}, {"linked-notes", "\x00LINK:NOTES"}},
 		// copyright notices and date lines before, inside and - the last line with any words - after the license
@@ -147,7 +149,7 @@ func c19CLI(c *vrep.Ctx) {
 	}
 	sort.Strings(names)
 	if !c.Thorough() {
-		names = []string{"licensed", "unlicensed", "nested", "crlf", "long-line-first", "header-only", "copyright-only", "no-trailing-nl", "identical-twins", "crowd", "latin1", "big-no-trailing-nl", "license-after-64k", "ignore-authors", "notice-positions", "symlinks"}
+		names = []string{"licensed", "unlicensed", "nested", "crlf", "long-line-first", "header-only", "copyright-only", "no-trailing-nl", "identical-twins", "crowd", "latin1", "big-no-trailing-nl", "license-after-64k", "ignore-authors", "notice-positions", "symlinks", "duplicates"}
 	}
 	taskMenu := []string{"1", "2", "16", "default"}
 	c.R.Rule = fmt.Sprintf("the real identify_license binary built from the current tree, over %d file sets (licensed, unlicensed, nested directories, no trailing newline, CRLF, a 70 000-character line, empty file, header-only, copyright-only, two licenses in one file, many files, 1100 files, a tree run with -ignore_paths_re for one file name) x {-headers} x {plain, -json -include_text} x -tasks %v: stdout lines (as a multiset), JSON Text (= lines StartLine..EndLine of the file) and exit status compared with in-process DefaultClassifier().Match on the file bytes; quick tier samples the flag combinations round-robin, thorough runs all; non-trivial = runs that reported at least one line", len(names), taskMenu)
